@@ -23,6 +23,9 @@ CHECKS = {
     "C13": ("boundary monitor on deserialize/serialize of unions with the real per-alternative calls as oracle (try-each-alternative), discriminator mapping computed from the program spec",
             "Exploration: for generated unions (same-JSON-type pairs, by-type dispatch, Optional, unsupported members, union-level constraints; strict and coerce=True) the union call must accept iff some alternative accepts and return a value equal to the first accepting alternative's; discriminated unions (annotated / inherited / TypedDict; default, explicit, partial mappings) must behave as the mapped alternative, reject bad tags at the discriminator key, serialize as the matching alternative plus the key, and round-trip; TaggedUnion accepts exactly one tag.",
             "Trusted: apischema's own per-alternative deserialize/serialize (self-referential oracle); the discriminator mapping rule transcribed from docs/json_schema.md and the example.", "DESIGN §5 C13"),
+    "C08": ("pairwise boundary monitor (same call with / without one optimisation option) + container-identity walker + input fingerprints",
+            "Exploration: results and errors of deserialize/serialize must be identical across no_copy, override_dataclass_constructors, function vs precomputed method, check_type on well-typed values, deserialization pass_through and all 2^5 PassThroughOptions flag sets (after completion with serialization_default); no_copy=False results share no mutable container with the input; inputs are never modified.",
+            "Trusted: identity walker and JSON completion of pass-through results; abstains on Any positions (no-sharing clause) and on unions whose alternatives overlap by runtime class (serialization side).", "DESIGN §5 C08"),
 }
 PLANNED = {
 }
